@@ -638,7 +638,10 @@ func run(c *lib.Ctx) {
 	// Raw documents that are not (non-empty) mappings.
 	for _, raw := range []string{"", "\n", "# only a comment\n", "---\n", "---", "null\n", "~\n", "[]\n", "- schema_version: 1\n", "3\n", "text\n", "{}\n",
 		"schema_version: null\n", "schema_version: -1\n", "schema_version: 30\n", "schema_version: 1.5\n", "schema_version: \"3\"\n", "schema_version: 99999999999999999999\n",
-		"schema_version: 28\n---\nschema_version: 3\n", "schema_version: 0\nschema_version: 1\n", "? [a]\n: b\nschema_version: 1\n", "1: x\nschema_version: 2\n", "\tschema_version: 1\n", "schema_version: &a 5\ndns: *a\n"} {
+		"schema_version: 28\n---\nschema_version: 3\n", "schema_version: 0\nschema_version: 1\n", "? [a]\n: b\nschema_version: 1\n", "1: x\nschema_version: 2\n", "\tschema_version: 1\n", "schema_version: &a 5\ndns: *a\n",
+		// a byte order mark in front of a current, an old, an unparsable and a wrongly stamped document
+		fmt.Sprintf("\ufeffschema_version: %d\n", last), "\ufeffschema_version: 27\n", "\ufeffschema_version: [\n", "\ufeffschema_version: 1000\n",
+		fmt.Sprintf("schema_version: %d\n", last), fmt.Sprintf("schema_version: %d\n", last+1), "schema_version: -2147483648\n", "schema_version: 4294967297\n"} {
 		if c.Mine(idx) {
 			c.Count("evals", 1)
 			c.Count("raw_docs", 1)
@@ -650,6 +653,10 @@ func run(c *lib.Ctx) {
 				c.Violation("panic-raw:"+panicSite(o.panicked)+":"+strconv.Quote(raw), fmt.Sprintf("Migrate panics on raw document %q:\n%s", raw, firstLines(o.panicked, 14)), cs)
 			case o.err != nil && (o.upgraded || string(o.body) != raw):
 				c.Violation("error-changes-body:raw:"+strconv.Quote(raw), fmt.Sprintf("Migrate failed (%v) but changed the body", o.err), cs)
+			case o.err == nil && !o.upgraded && string(o.body) != raw:
+				c.Violation("not-upgraded-but-changed:raw:"+strconv.Quote(raw), fmt.Sprintf("Migrate reports that nothing was upgraded but returns other bytes: %q", o.body), cs)
+			case o.err == nil && !stampedCurrent(o.body):
+				c.Violation("no-error-not-current:raw:"+strconv.Quote(raw), fmt.Sprintf("Migrate returns no error (upgraded=%v) but the document is not stamped with the current schema version: %q", o.upgraded, o.body), cs)
 			case o.err == nil && o.upgraded:
 				again := e.migrate(o.body, last)
 				if again.panicked != "" || again.err != nil || again.upgraded {
@@ -813,6 +820,17 @@ type devNull struct{}
 
 func (devNull) Write(p []byte) (int, error) { return len(p), nil }
 
+// stampedCurrent: the document is a mapping whose schema_version is the
+// current one.
+func stampedCurrent(body []byte) bool {
+	var m map[string]any
+	if err := yaml.Unmarshal(body, &m); err != nil {
+		return false
+	}
+	v, ok := m["schema_version"].(int)
+	return ok && v == int(last)
+}
+
 func replay(c *lib.Ctx, raw json.RawMessage) string {
 	log.SetLevel(log.ERROR)
 	var cs caseC
@@ -830,6 +848,12 @@ func replay(c *lib.Ctx, raw json.RawMessage) string {
 		}
 		if o.err != nil && (o.upgraded || string(o.body) != cs.Body) {
 			return "error changes body"
+		}
+		if o.err == nil && !o.upgraded && string(o.body) != cs.Body {
+			return "nothing upgraded but other bytes returned"
+		}
+		if o.err == nil && !stampedCurrent(o.body) {
+			return "no error but the document is not stamped with the current schema version"
 		}
 		return ""
 	}
